@@ -14,6 +14,7 @@ import PV.Driver.UThread
 import PV.Driver.Socket
 import PV.Driver.Res
 import PV.Driver.IPC
+import PV.Driver.IPCSysV
 def main (args : List String) : IO UInt32 := do
   match args with
   | ["ht"] => PV.Driver.HT.run; return 0
@@ -33,4 +34,6 @@ def main (args : List String) : IO UInt32 := do
   | ["socket"] => PV.Driver.Socket.run; return 0
   | ["res"] => PV.Driver.ResD.run; return 0
   | ["ipc"] => PV.Driver.IPC.run; return 0
+  | ["ipcsysv"] => PV.Driver.IPCSysV.run false; return 0
+  | ["ipcsysv-reuse"] => PV.Driver.IPCSysV.run true; return 0
   | _ => IO.eprintln "usage: pvdriver <family>  (ops on stdin)"; return 2
